@@ -33,6 +33,17 @@ def P(*names):
 
 
 SCOPES = {
+    # everything at once (thorough tier, random walks only): 6 files, 4 directories, 4 roots, 3 formats, patterns, every command
+    "all": dict(
+        fmts=["c4", "md5", "xxh64"], files=[P("a"), P("x"), P("k_t"), P("d", "b"), P("d", "e", "c"), P("d2", "f")], dirs=[P("d"), P("d", "e"), P("d2"), P("g")],
+        init={P("a"): "c1", P("x"): "c2", P("k_t"): "c1", P("d"): "DIR", P("d", "b"): "c2", P("d", "e"): "DIR", P("d", "e", "c"): "c3", P("d2"): "DIR", P("d2", "f"): "c1", P("g"): "DIR"},
+        contents=["c1", "c2", "c3", "EMPTY"], roots=[P(), P("d"), P("d", "e"), P("d2")],
+        fmtchoices=[["md5"], ["c4", "xxh64"], ["c4", "md5", "xxh64"], ["xxh64"]], pats=[(), ("n:x",), ("g:tmp",)],
+        sf=[frozenset({P("d", "e", "c")}), frozenset({P("d")}), frozenset({P("a"), P("d2", "f")})],
+        ops=["alter", "delete", "mkdir", "create", "createsf", "verify", "diff", "verifysf", "verifydh", "verifydhco", "flatten", "verifypl", "info", "infosf", "hash", "xsdcheck", "nodh"],
+        maxgens=40, maxops=14, keepsnap=True, patnames={"n:x": ["x"], "g:tmp": ["k_t"]},
+        mutable=[P("a"), P("x"), P("d", "b"), P("d", "e", "c"), P("d2", "f"), P("g")],
+    ),
     # one file, three formats, two contents: every format sequence over <= 3 generations
     "fmt3": dict(
         fmts=["md5", "sha1", "xxh64"], files=[P("a")], dirs=[], init={P("a"): "c1"}, contents=["c1", "c2"],
